@@ -73,3 +73,9 @@ M("c01-classifier-not-total", "C01", A, "is_anyio_cancellation", "            ex
 M("c01-F13-revert-native-cancel-skips-join", "C01", A, "TaskGroup.__aexit__",
   "                    try:\n                        await AsyncIOBackend.cancel_shielded_checkpoint()\n                    except CancelledError as exc:\n                        # A native cancellation got through the shield. Any task that\n                        # was started during the checkpoint still has to be waited on\n                        # below, so handle this the same way as in the wait loop.\n                        self.cancel_scope.cancel()\n                        if exc_val is None or (\n                            isinstance(exc_val, CancelledError)\n                            and not is_anyio_cancellation(exc)\n                        ):\n                            exc_val = exc\n",
   "                    await AsyncIOBackend.cancel_shielded_checkpoint()\n", ["R01-a"])
+
+# F14: the done-callback finalises the handle of a child that never ran
+M("c01-F14-revert-never-started-handle", "C01", A, "TaskGroup._spawn.task_done",
+  "            if not handle._finished_event.is_set():\n                # The task was cancelled before it got to run its first step, so\n                # TaskHandle._run_coro() never got the chance to record the outcome\n                handle._exception = exc\n                handle._finished_event.set()\n                coro.close()\n\n", "", ["R01-i"])
+M("c01-never-started-handle-no-outcome", "C01", A, "TaskGroup._spawn.task_done", "                handle._exception = exc\n                handle._finished_event.set()", "                handle._finished_event.set()", ["R01-i"])
+M("c01-done-callback-overwrites-outcome", "C01", A, "TaskGroup._spawn.task_done", "            if not handle._finished_event.is_set():\n                # The task was cancelled", "            if True:\n                # The task was cancelled", ["R01-i"])
